@@ -181,7 +181,7 @@ func (ex *Exec) invokeOne(st *State, al FuncAlt, args []Value, cc *ssa.CallCommo
 var allowedPkgs = map[string]bool{
 	"errors": false, "encoding/binary": true, "math/bits": true, "sort": true, "bytes": true,
 	"net": true, "net/netip": true, "strconv": true, "strings": true, "math": true, "slices": true, "cmp": true,
-	"unicode/utf8": true, "internal/bytealg": true, "internal/itoa": true, "internal/stringslite": true, "container/list": true,
+	"unicode/utf8": true, "crypto/subtle": true, "internal/bytealg": true, "internal/itoa": true, "internal/stringslite": true, "container/list": true,
 }
 
 func (ex *Exec) allowedExternal(fn *ssa.Function) bool {
@@ -374,19 +374,23 @@ func (ex *Exec) appendBuiltin(st *State, args []Value, cc *ssa.CallCommon, pos t
 		}
 		if symBytes {
 			newCap = newLen
-			o = ex.newSymBytes(newCap, ex.posString(pos))
+			o = ex.adopt(st, ex.newSymBytes(newCap, ex.posString(pos)))
 		} else {
-			nl, ok := ex.concretize(st, newLen, "append length")
-			if !ok {
-				panic(ex.unsupported("append with symbolic length of []%s at %s", elem, ex.posString(pos)))
+			oc, okc := ex.upperBound(st, s.Cap)
+			nn, okn := ex.upperBound(st, n)
+			if !okc || !okn {
+				panic(ex.unsupported("append with symbolic capacity or count of []%s at %s", elem, ex.posString(pos)))
 			}
-			oc, _ := ex.concretize(st, s.Cap, "append cap")
-			nc := nl
+			// the new length is at most cap+count; Go's growth rule is approximated by doubling
+			nc := oc + nn
+			if nl, ok := ex.concretize(st, newLen, "append length"); ok {
+				nc = nl
+			}
 			if 2*oc > nc {
 				nc = 2 * oc
 			}
 			newCap = ex.idxConst(nc)
-			o = ex.newVec(elem, int(nc), ex.posString(pos))
+			o = ex.adopt(st, ex.newVec(elem, int(nc), ex.posString(pos)))
 		}
 		r2 = ex.mkSlice(o, ex.idxConst(0), newLen, newCap)
 		d1 := &SliceV{Base: r2.Base, Off: ex.idxConst(0), Len: s.Len, Cap: newCap}
@@ -613,4 +617,17 @@ func (ex *Exec) nondetBytes(st *State, name string, n *Term) *SliceV {
 	}
 	o.Len = n
 	return ex.mkSlice(o, ex.idxConst(0), n, n)
+}
+
+// upperBound returns a concrete upper bound of an int term (its value if unique, else the
+// interval bound of the term).
+func (ex *Exec) upperBound(st *State, t *Term) (int64, bool) {
+	t = ex.tb.Restrict(t, st.ctx)
+	if c, ok := ex.termInt64(t); ok {
+		return c, true
+	}
+	if _, hi := t.Bounds(); hi != nil && hi.IsInt64() && hi.Int64() < 1<<20 {
+		return hi.Int64(), true
+	}
+	return ex.concretize(st, t, "upper bound")
 }
